@@ -109,7 +109,7 @@ pub fn decode(t: &mut Tape) -> NetCase {
 pub fn check(ctx: &mut Ctx) {
     ctx.rule = "1-10 $csp= rules / @@..$csp= / blanket @@..$csp on 7 overlapping patterns with 6 directives (duplicates frequent), optional domain/party/important/tag options, plus ordinary rules; tag subset; 1-5 requests over all request-type strings (half forced to document types). Oracle: non-document types => None; a matching active blanket exception => None; otherwise set(enabled) minus set(disabled), None when empty; compared as the set of comma-separated parts, which must be duplicate-free; the same query on an engine built from the reversed list with optimisation on must give the same set. Non-trivial = >= 2 distinct directives enabled and >= 1 exception, or a blanket exception.".into();
     ctx.assumptions = vec!["which csp rules match is decided by NetworkFilter::matches; directives contain no comma (the option grammar cannot express one)".into()];
-    let n = ctx.tier.pick(60_000, 2_000_000);
+    let n = ctx.tier.pick(800_000, 6_000_000);
     drive(ctx, "csp", n, 300, &decode, &check_case);
 }
 
